@@ -8,6 +8,7 @@ import (
 	"path/filepath"
 	"regexp"
 	"runtime/debug"
+	"runtime/pprof"
 	"sort"
 	"strings"
 	"sync"
@@ -58,9 +59,22 @@ func main() {
 	unwind := flag.Int("unwind", 8, "default unwinding bound for loops with symbolic conditions")
 	trace := flag.Bool("trace", false, "trace instructions")
 	dumpDir := flag.String("dump-smt", "", "directory to dump failing/unknown queries")
+	feasMs := flag.Int("feasibility-timeout-ms", 8000, "timeout of the branch-pruning queries (unknown = keep the branch)")
 	tier := flag.String("tier", "quick", "quick|thorough (value of the verifTier intrinsic)")
 	second := flag.String("second-solver", "", "re-check every obligation with this solver (z3-new|cvc5) and diff")
+	cpuprof := flag.String("cpuprofile", "", "write cpu profile")
 	flag.Parse()
+	if *cpuprof != "" {
+		f, _ := os.Create(*cpuprof)
+		pprof.StartCPUProfile(f)
+		defer pprof.StopCPUProfile()
+		go func() {
+			time.Sleep(90 * time.Second)
+			pprof.StopCPUProfile()
+			f.Close()
+			os.Exit(9)
+		}()
+	}
 
 	start := time.Now()
 	cfg := &packages.Config{
@@ -118,7 +132,7 @@ func main() {
 	pool := newPool()
 	ro := &RunOutput{Repo: *repo, Tags: *tags, LoadMs: loadMs}
 	for _, name := range names {
-		hr := runHarness(prog, pkgs[0].Fset, mainPkg, name, pool, *unwind, *trace, *tier)
+		hr := runHarness(prog, pkgs[0].Fset, mainPkg, name, pool, *unwind, *trace, *tier, *feasMs)
 		hr.Tags = *tags
 		discharge(pool, hr, *workers, *timeout, *dumpDir, *second)
 		ro.Harnesses = append(ro.Harnesses, hr)
@@ -156,7 +170,7 @@ func newEngine(prog *ssa.Program, fset interface{}, pool *SolverPool) *Engine {
 	return nil
 }
 
-func runHarness(prog *ssa.Program, fset0 interface{}, pkg *ssa.Package, name string, pool *SolverPool, unwind int, trace bool, tier string) *HarnessResult {
+func runHarness(prog *ssa.Program, fset0 interface{}, pkg *ssa.Package, name string, pool *SolverPool, unwind int, trace bool, tier string, feasMs int) *HarnessResult {
 	hr := &HarnessResult{Name: name, Pkg: pkg.Pkg.Path(), Loops: map[string]string{}, Bounds: map[string]string{}}
 	start := time.Now()
 	e := &Engine{
@@ -166,7 +180,7 @@ func runHarness(prog *ssa.Program, fset0 interface{}, pkg *ssa.Package, name str
 		globals: map[*ssa.Global]int{}, harness: name, unwind: unwind, maxVisits: 20000,
 		caseVals: map[string]int{}, caseRanges: map[string][2]int{}, bounds: map[string]string{},
 		trace: trace, initHeap: map[int]Value{}, assumptions: map[string]bool{},
-		redirects: map[string]*ssa.Function{}, mainPkg: pkg, tier: tier,
+		redirects: map[string]*ssa.Function{}, mainPkg: pkg, tier: tier, feasTimeout: feasMs,
 	}
 	e.installStubs()
 	fn := pkg.Func(name)
@@ -327,6 +341,13 @@ func discharge(pool *SolverPool, hr *HarnessResult, workers, timeoutMs int, dump
 			defer wg.Done()
 			for o := range ch {
 				as := asserts[o]
+				if d := os.Getenv("GOSYM_DUMP_ALL"); d != "" {
+					os.MkdirAll(d, 0755)
+					termMu.Lock()
+					script, _ := Script(as, nil)
+					termMu.Unlock()
+					os.WriteFile(filepath.Join(d, sanitize(o.ID)+".smt2"), []byte(script+"(check-sat)\n"), 0644)
+				}
 				var kb strings.Builder
 				ids := make([]int, len(as))
 				for i, a := range as {
